@@ -255,6 +255,9 @@ class Check(PropertyCheck):
         fails = self.oracle(cs)
         return fails
 
+    def oracle_on_texts(self, texts):
+        return self.oracle([(t, []) for t in texts])
+
     def replay_case(self, case):
         forced = {0: (case["settings_key"], case["settings_val"])} if "settings_key" in case else None
         return self.oracle([(case["input"], [])], forced=forced)
